@@ -1,6 +1,13 @@
+import GceTcb.Model.Paths
 /-
 Model of endorse/commit.go: entryMaps, removeDigest, addEndorsementEntry, and an endorse run over a
 file store (C13).  Core-only.
+
+Two renderings of an endorse run: `endorseRun` below sees the output directory from inside (files keyed
+by their cleaned name relative to the directory, one fixed directory, snapshot files elsewhere);
+`Model/ManifestFS.lean` has the run over full paths (`endorseRunP`: arbitrary root, --out_dir,
+--snapshot_dir and image name, every path computed with the model of Go's path.Clean / path.Join).
+`Proofs/ManifestFS.lean` relates the two (`view_step`).
 
 Go's pointer aliasing (`modify = oldPath; modify.Digest = …`) is rendered as a `map` that rewrites the
 unique entry carrying the matched path (or digest).  That rendering is exact whenever `entryMaps`
@@ -57,14 +64,25 @@ structure Run where
   snapshot : Bool := false   -- snapshot mode: files go to a separate snapshot directory, the manifest is not touched
 deriving Repr
 
-def basename (cand : String) : String :=
-  (if cand == "" then "endorsement" else cand) ++ ".binarypb"
+/-- go: endorse.defaultGenerateBasename — `path.Clean(release + "." + "binarypb")`: the name the
+    endorsement file is written under and listed by, for ANY candidate name ("" = "endorsement"). -/
+def basename (cand : String) : String := Paths.cleanBasename cand
+
+/-- go: endorse.defaultGenerateBasename — the cleaned name must be neither rooted nor start with "../"
+    (`fix: refuse candidate names that do not name a file below the output directory`). -/
+def nameOk (cand : String) : Bool := Paths.localName (basename cand)
+
+/-- go: endorse.ManifestFile -/
+def manifestFile : String := "manifest.textproto"
 
 /-- go: endorse.changeEndorsements/addEndorsement/defaultGenerateBasename for the manifest mode
-    (not dry-run); a snapshot-mode run writes only under its own snapshot directory and leaves the output directory and the manifest alone.  Returns the new store and whether the run succeeded. -/
+    (not dry-run), seen from inside the output directory; a snapshot-mode run writes only under its own
+    snapshot directory and leaves the output directory and the manifest alone.  Returns the new store
+    and whether the run succeeded. -/
 def endorseRun (s : Store) (r : Run) : Store × Bool :=
   let b := basename r.cand
   if r.snapshot then (s, true)
+  else if !nameOk r.cand then (s, false)
   else if (lookup s.files b).isSome && !r.overwrite then (s, false)
   else
     ({ files := writeFile s.files b r.digest,
